@@ -237,8 +237,44 @@ def literal_unpack_operands(chk):
                replay=None if got == want else {"confirmed": True, "input": spy + " " + call, "observed": repr(got), "expected": repr(want)})
 
 
+def keyword_argument_names(chk):
+    """Call side: the name of a keyword argument is the Python identifier of the parameter it is spelled like - hyphens, punctuation,
+    and NFKC normalisation (which CPython applies to every identifier, so a parameter written with a compatibility character is
+    the normalised name).  Compared with the equivalent Python def called by keyword; the expected argument name is computed with
+    unicodedata, independently of hy.mangle."""
+    import types
+    import unicodedata
+    import hy
+    names = ["\u00b5", "\u2115", "\ufb01x", "\uff55full", "a-b", "caf\u00e9", "\u2160v", "\u017f", "plain", "\u212b"]
+    for nm in names:
+        ident = nm.replace("-", "_")
+        assert ident.isidentifier(), nm       # (other names get hy.mangle's hyx_ escapes: property C32/C34)
+        want_arg = unicodedata.normalize("NFKC", ident)
+        out = sx.run_rule(E(Tok("a9", "E"), Keyword(nm), Tok("a0", "E")))
+        got_arg = out.result._expr.keywords[0].arg if out.ok and getattr(out.result._expr, "keywords", None) else repr(getattr(out, "exc", None))
+        progs = [f"(defn f [a / {nm} * [scale 1] #** kw] #(a {nm} scale kw)) (f 1 :{nm} 2)",
+                 f"(defn f [* {nm}] {nm}) (f :{nm} 3)",
+                 f"(defn f [[{nm} 0] #** kw] #({nm} kw)) (f #** {{\"scale\" 5}} :{nm} 2)"]
+        wants = [(1, 2, 1, {}), 3, (2, {"scale": 5})]
+        bad = None
+        for src, want in zip(progs, wants):
+            try:
+                got = hy.eval(hy.read_many(src), module=types.ModuleType("hv_c05k"))
+            except Exception as e:  # noqa: BLE001
+                got = f"{type(e).__name__}: {e}"[:160]
+            if got != want and bad is None:
+                bad = (src, got, want)
+        chk.case(("kwname", nm))
+        ok = got_arg == want_arg and bad is None
+        chk.ob(f"call/keyword argument name {ascii(nm)}: the NFKC-normal Python identifier of the parameter", ok, "cpython-oracle", "proved",
+               detail=f"emitted keyword name {got_arg!r}, expected {want_arg!r}; {bad}",
+               replay=None if ok else {"confirmed": True, "input": bad[0] if bad else f"(f :{nm} v)", "observed": repr(bad[1]) if bad else got_arg,
+                                       "expected": repr(bad[2]) if bad else want_arg})
+
+
 def run(chk):
     parameters_under_let(chk)
+    keyword_argument_names(chk)
     literal_unpack_operands(chk)
     quick = chk.tier == "quick"
     maxn = 4 if quick else 6
